@@ -4,16 +4,23 @@ from fractions import Fraction
 
 from .. import common
 from ..common import rat, unrat
+from ..ladder import LADDER_ALL, ladder_value
 
 PROP = "C03"
 RULE = ("[== matrices: every ordered pair of zero / negligible / non-zero terms, numbers and sums; histories re-using the "
         "same operand objects; wide-range coefficients (2^-30 .. 2^33 in one operator); sibling operands differing in one "
         "component; caller-mutates-then-asks-again; exponents up to 1024; explicit identities, indices up to 2^64; terms on up to 70 "
-        "qubits, sums of up to 200 terms; int / float / complex / bool / numpy scalar types; augmented assignment; two float routes] op-sequence programs over terms / sums / numbers (+ - * / ** simplify ==, numbers on either side) and the "
+        "qubits, sums of up to 200 terms; int / float / complex / bool / numpy scalar types; TYPE LADDER: coefficients of numpy complex64 / clongdouble / "
+        "float32 / float16 / longdouble / int8..int64 / uint8 / uint16 / bool_, Python bool, Fraction, sympy Integer / Rational / Float mixed with "
+        "plain numbers through + - * / ** simplify (and == where the unchanged library defines it), numpy-integer / Fraction divisors and "
+        "right operands of -, Fraction / sympy left operands of + - on a term, exponent bounds keeping the narrow type's arithmetic exact; "
+        "augmented assignment; two float routes] op-sequence programs over terms / sums / numbers (+ - * / ** simplify ==, numbers on either side) and the "
         "exhaustive table of products of all Pauli strings on <=3 qubits in both orders; non-trivial: a binary step "
         "whose two operands are initial operators that are both non-constant with overlapping qubit supports, or an "
         "initial sum containing a duplicate operator string or a zero coefficient; distinct = distinct canonical JSON")
 TRUSTED = [
+    "numpy / fractions / sympy scalar arithmetic is exact on the dyadic values the type-ladder cases keep within the mantissa of the "
+    "narrowest type involved (generator-side exponent bounds, _Tracked(span_max, hmax)); complex(x) reads every such scalar back",
     "np.isclose(c, 0.0) is |c| <= 1e-8 and np.allclose(a, b) is |a-b| <= 1e-8 + 1e-5|b| (parameters negl / close of the model; "
     "the theorems hold for every negl, exactly when negl c <-> c = 0, and for == when close a b <-> a = b)",
     "Python float/complex + and * are exact on the dyadic coefficients used for the exact model comparison (other inputs: 1e-9 relative tolerance)",
@@ -24,6 +31,17 @@ TRUSTED = [
     "np.kron / @ / np.linalg.matrix_power used by the oracle are the Kronecker / matrix product / power",
 ]
 ASSUMPTIONS = [
+    "NUMBER TYPES (established on the unchanged library, kind `ladder`): a COEFFICIENT may be any Python / numpy scalar, a Fraction or a "
+    "real sympy number and + - * / ** simplify() are defined on it (the arithmetic is the type's own: only values whose intermediates "
+    "are exact in the narrowest type are generated; sympy a+b*I and products of two sympy-complex RESULTS are not -- numpy cannot "
+    "test sympy's unexpanded product against zero; mixtures sympy + numpy scalar / bool and unsigned + negative Python int are not -- "
+    "sympy / numpy refuse the addition).  == raises on the unchanged library (PauliTerm.__hash__: round() of a numpy.complex64 / "
+    "clongdouble -- which products of float32 / longdouble terms become --, OverflowError for float16 * 1e6; np.allclose on Fraction / "
+    "sympy) between SUMS unless every coefficient is an int / float / complex instance or a numpy integer / bool, and on terms with "
+    "Fraction / sympy coefficients: not asked there (`no_selfeq`).  A SCALAR OPERAND must be an int / float / complex instance "
+    "(_validate_type raises TypeError otherwise; a numpy scalar on the LEFT never reaches the library), except where the code converts "
+    "first: numpy integers / bool_ / Fraction as divisor (1.0 / x) and as right operand of - (-1.0 * x), Fraction / sympy numbers as left "
+    "operand of + and - on a PauliTerm (__radd__ / __rsub__ do not validate); ** takes int / bool exponents only (ValueError otherwise)",
     "theorems are stated for every commutative ring R with an element i, i*i = -1 (C, Q(i), and the driver's Q(zeta8), which is "
     "given a CommRing instance on its executable operations); the == theorems additionally assume R has no 2-torsion",
     "qubit 0 is the leftmost Kronecker factor (OQ.Pauli.denote); an operator on qubits q1<...<qm is compared on the compressed "
@@ -164,9 +182,35 @@ def _corpus_sizes_types(which):
     return g.case("wide")
 
 
+def _corpus_ladder(which):
+    if which == 0:
+        # numpy.complex64 (complex-valued, not a subclass of `complex`) and float32 coefficients through every operation
+        g = _Prog([T([[0, "X"], [1, "Y"]], Fraction(3, 2), Fraction(1, 2), "c64"), T([[1, "Z"]], Fraction(-1, 4), 1, "c64"),
+                   S(T([[1, "Y"], [0, "X"]], Fraction(1, 2), -1, "c64"), T([[2, "Z"]], Fraction(3, 8), 0, "f32"), T([[0, "X"], [1, "Y"]], 1, Fraction(1, 4), "c64")),
+                   N(2), N(0, 1), T([[1, "Y"], [0, "X"]], Fraction(3, 2), Fraction(1, 2))])
+        g("mul", 0, 1); g("mul", 1, 0); g("add", 0, 1); g("sub", 0, 1); g("mul", 0, 2); g("mul", 2, 0); g("simplify", 2); g("add", 2, 0); g("sub", 1, 2)
+        g("mul", 3, 2); g("mul", 0, 4); g("div", 2, 3); g("pow", 0, p=3); g("pow", 2, p=2); g("eq", 0, 5); g("eq", 5, 0); g("eq", 0, 1)
+        c = g.case("ladder"); c["family"] = "complex64"; c["no_selfeq"] = True
+        return c
+    if which == 1:
+        # int8 / bool_ coefficients, a numpy integer as divisor and as right operand of `-`; == between the results
+        g = _Prog([T([[0, "X"], [1, "Y"]], 3, 0, "i8"), T([[1, "Z"]], -2, 0, "i8"), S(T([[0, "Z"]], 1, 0, "nb"), T([[1, "Y"], [0, "X"]], 2, 0, "i16"), T([[0, "Z"]], 1, 0, "pb")),
+                   N(2, 0, "i8"), N(3, 0, "i32"), T([[1, "Y"], [0, "X"]], 3)])
+        g("mul", 0, 1); g("mul", 1, 0); x = g("add", 0, 1); y = g("add", 1, 0); g("sub", 0, 4); g("div", 2, 3); g("mul", 2, 0); g("simplify", 2)
+        g("pow", 0, p=2); g("pow", 2, p=2); g("eq", x, y); g("eq", 0, 5); g("eq", 5, 0); g("sub", 2, 4)
+        c = g.case("ladder"); c["family"] = "int8"
+        return c
+    # Fraction / sympy coefficients; a Fraction / sympy number as LEFT operand of + and - on a term
+    g = _Prog([T([[0, "X"], [1, "Y"]], Fraction(3, 8), 0, "fr"), T([[1, "Z"]], Fraction(-5, 8), 0, "sr"), S(T([[0, "X"], [1, "Y"]], 2, 0, "si"), T([[2, "Z"]], Fraction(1, 2), 0, "sf")),
+               N(Fraction(7, 8), 0, "fr"), N(3, 0, "si"), N(Fraction(1, 2), 0, "fr")])
+    g("mul", 0, 1); g("mul", 1, 0); g("add", 0, 1); g("sub", 0, 2); g("mul", 2, 0); g("add", 3, 0); g("sub", 4, 1); g("div", 2, 5); g("sub", 0, 3); g("pow", 0, p=3)
+    c = g.case("ladder"); c["family"] = "exact-objects"; c["no_selfeq"] = True
+    return c
+
+
 def corpus():
     X0, Y0, Z1 = T([[0, "X"]]), T([[0, "Y"]]), T([[1, "Z"]])
-    return [
+    return [_corpus_ladder(0), _corpus_ladder(1), _corpus_ladder(2)] + [
         # the sixteen single-qubit products in one go
         {"kind": "pairs", "n": 1, "left": [[0, "X"]], "cl": _c(1), "cr": _c(1)},
         {"kind": "pairs", "n": 1, "left": [[0, "Y"]], "cl": _c(1), "cr": _c(1)},
@@ -610,8 +654,15 @@ class _Tracked:
     every coefficient is a multiple of 2^L and every sum of like terms stays below 2^H; a step is only emitted when
     H - L <= SPAN_MAX afterwards, so Python's double arithmetic is exact and the exact model must agree to the last bit"""
 
-    def __init__(self):
+    def __init__(self, span_max=None, hmax=None):
         self.vals, self.steps, self.info = [], [], []
+        # span_max: bits the arithmetic of the narrowest coefficient type of the program carries (52 for doubles, 20 for float32 /
+        # complex64, 9 for float16); hmax: bound on log2 of every like-term sum (integer types: no overflow)
+        self.span_max = SPAN_MAX if span_max is None else span_max
+        self.hmax = hmax
+
+    def _fits(self, f):
+        return f["H"] - f["L"] <= self.span_max and (self.hmax is None or f["H"] <= self.hmax)
 
     def val(self, v, L, H, n=1, lin=False):
         assert not self.steps
@@ -640,7 +691,7 @@ class _Tracked:
         if A["k"] == "num" and B["k"] == "num":
             return None
         f = {"k": "sum", "L": min(A["L"], B["L"]), "H": max(A["H"], B["H"]) + 1, "n": A["n"] + B["n"], "lin": A["lin"] or B["lin"]}
-        if f["H"] - f["L"] > SPAN_MAX or f["n"] > 24:
+        if not self._fits(f) or f["n"] > 24:
             return None
         return self._push(st(op, a, b), f)
 
@@ -652,7 +703,7 @@ class _Tracked:
         n = A["n"] * B["n"]
         f = {"k": "sum" if "sum" in (A["k"], B["k"]) else "term", "L": A["L"] + B["L"],
              "H": A["H"] + B["H"] + 1 + max(n, 1).bit_length(), "n": n, "lin": A["lin"] or B["lin"]}
-        if f["H"] - f["L"] > SPAN_MAX or n > 16:
+        if not self._fits(f) or n > 16:
             return None
         return f
 
@@ -668,6 +719,8 @@ class _Tracked:
         if A["k"] == "num" or D["k"] != "num" or "j" not in D:
             return None
         f = dict(A, L=A["L"] - D["j"], H=A["H"] - D["j"])
+        if not self._fits(f):
+            return None
         return self._push(st("div", a, d), f)
 
     def pow(self, a, p):
@@ -1349,6 +1402,177 @@ def _types_case(rng, tier):
     return c
 
 
+# ------------------------------------------------------------------ the type ladder of a coefficient / scalar operand
+# (name, coefficient tags, complex values, bits carried by the narrowest type, bound on log2 |like-term sum| (integer overflow),
+#  value grid, where == is defined on the unchanged library: "all" / "terms" (PauliTerm == PauliTerm or number only) / None)
+LADDER_FAMILIES = [
+    ("complex64", ("c64",), True, 20, None, "eighths", "terms"),
+    ("clongdouble", ("clg", "flg"), True, 52, None, "eighths", "terms"),
+    ("float32", ("f32",), False, 20, None, "eighths", "terms"),
+    ("float16", ("f16",), False, 9, None, "halves", "terms"),
+    ("longdouble", ("flg",), False, 52, None, "eighths", "terms"),
+    ("numpy-mixed", ("c64", "f32", "flg", "clg", "i16", "i32", "nb", "pb"), True, 20, None, "eighths", "terms"),
+    ("int8", ("i8", "u8", "nb", "pb"), False, 30, 6, "ints", "all"),
+    ("ints", ("i16", "i32", "i64", "u16", "nb", "pb"), False, 30, 14, "ints", "all"),
+    ("exact-objects", ("fr", "si", "sr", "sf"), False, 52, None, "eighths", None),
+]
+SCALAR_INT_TAGS = ("i8", "i16", "i32", "i64", "u8", "nb")
+
+
+def _ladder_case(rng, tier, family=None):
+    """the NUMBER TYPE of a coefficient: the same exact values carried by numpy complex64 / clongdouble / float32 / float16 /
+    longdouble / int8..int64 / uint8 / uint16 / bool_, Python bool, fractions.Fraction and sympy Integer / Rational / Float
+    (a complex-valued type that is not a subclass of `complex`, a real one that is not a `float`, an integer one that is not an
+    `int`), mixed with plain Python numbers, through every operation and operand-kind mix; scalar operands of the types the
+    unchanged library accepts there (numpy integers / Fraction as divisor and as right operand of `-`; Fraction / sympy numbers as
+    LEFT operand of + and - on a term).  A generator-side bound on the binary exponents (`_Tracked`, with the mantissa of the
+    narrowest type of the family and, for integer types, a magnitude bound) keeps every intermediate exact IN THAT TYPE, so the
+    exact model must agree to the last bit.  == is only asked where the unchanged library defines it (see ASSUMPTIONS)."""
+    name, tags, cplx, span, hmax, grid, eqmode = family or rng.choice(LADDER_FAMILIES)
+    sym = name == "exact-objects"
+    pool = _pool(rng, 3)
+    strs = _strings(rng, pool, 4)
+    g = _Tracked(span_max=span, hmax=hmax)
+    L0, H0 = {"eighths": (-3, 2), "halves": (-1, 2), "ints": (0, 3)}[grid]
+
+    def value():
+        if grid == "eighths":
+            re = Fraction(rng.randrange(1, 17) * rng.choice([1, -1]), 8)
+            im = Fraction(rng.randrange(-16, 17), 8) if cplx and rng.random() < 0.6 else Fraction(0)
+        elif grid == "halves":
+            re, im = Fraction(rng.randrange(1, 5) * rng.choice([1, -1]), 2), Fraction(0)
+        else:
+            re, im = Fraction(rng.choice([1, 1, 2, 3, 5, 7, -1, -2, -3])), Fraction(0)
+        return re, im
+
+    def typed(re, im, p=0.8):
+        fits = [t for t in tags if ladder_value(t, re, im) is not None]
+        if fits and rng.random() < p:
+            return rng.choice(fits)
+        # plain Python next to it (never a Python int next to unsigned numpy types: numpy refuses uint + negative int; sympy refuses bool)
+        return rng.choice([None, "complex"]) if (im != 0 or "u8" in tags or "u16" in tags or rng.random() < 0.7) else "int" if re.denominator == 1 else None
+
+    def term(ops, p=0.8):
+        re, im = value()
+        return T(list(ops), re, im, typed(re, im, p))
+
+    def reg(v):
+        n = len(v["terms"]) if v["k"] == "sum" else 1
+        return g.val(v, L0, H0 + (max(n, 1).bit_length() if v["k"] == "sum" else 0), max(n, 1))
+
+    A = reg(term(strs[0], 1.0))
+    B = reg(term(strs[1]))
+    Cc = reg(term(strs[2]) if rng.random() < 0.7 else term([]))
+    PL = reg(term(strs[rng.randrange(3)], 0.0))                                  # a plain Python coefficient next to them
+    a0 = g.vals[A]
+    TW = reg(T(list(reversed(a0["ops"])), unrat(a0["c"][0]), unrat(a0["c"][1]), rng.choice([None, "complex"])))  # A's value, plain type
+    # the same operator string with ONE part of the coefficient moved by a grid step, carried by A's type where it fits
+    step = {"eighths": Fraction(1, 8), "halves": Fraction(1, 2), "ints": Fraction(1)}[grid]
+    sre, sim = unrat(a0["c"][0]), unrat(a0["c"][1])
+    if cplx and rng.random() < 0.7:
+        sim = -sim if sim != 0 and rng.random() < 0.5 else sim + step        # conjugate / imaginary part moved
+    else:
+        sre = sre + step if abs(sre + step) <= abs(sre) or grid != "ints" else sre - step
+    sty = a0.get("ty") if ladder_value(a0.get("ty") or "", sre, sim) is not None else typed(sre, sim, 1.0)
+    SIB = reg(T(list(a0["ops"]), sre, sim, sty))
+    raw = [term(strs[0]), term(strs[1]), term(list(reversed(strs[0]))), term(strs[3])]
+    if rng.random() < 0.4:
+        raw.append(term([]))
+    rng.shuffle(raw)
+    S1 = reg(S(*raw))                                                            # holds a duplicate operator string
+    S2 = reg(S(term(strs[1]), term(strs[2]), ty="tuple" if rng.random() < 0.15 else None))
+    N2 = g.val(N(*rng.choice([(2, 0), (-1, 0), (Fraction(1, 2), 0), (4, 0)])), -1, 3)
+    NI = g.val(N(*rng.choice([(0, 1), (0, -1), (1, 1)])), 0, 2) if grid != "ints" or rng.random() < 0.5 else N2
+    dv, dj = rng.choice([(2, 1), (4, 2), (-2, 1), (1, 0)])
+    dt = "fr" if sym else rng.choice([t for t in SCALAR_INT_TAGS + ("fr",) if ladder_value(t, dv, 0) is not None])
+    D = g.val(N(dv, 0, dt), dj, dj)
+    g.info[D]["j"] = dj
+    DF = g.val(N(Fraction(1, 2), 0, "fr"), -1, -1)                              # a Fraction as divisor: 1.0 / Fraction is a float
+    g.info[DF]["j"] = -1
+    sv = rng.choice([1, 2, 3, 5])
+    SB = g.val(N(sv, 0, "fr" if sym else rng.choice([t for t in SCALAR_INT_TAGS + ("fr",) if ladder_value(t, sv, 0) is not None])), 0, 3)
+    NL = None
+    if sym:
+        lv = Fraction(rng.randrange(1, 17), 8) if rng.random() < 0.6 else Fraction(rng.randrange(1, 6))
+        NL = g.val(N(lv, 0, rng.choice([t for t in ("fr", "sr", "sf", "si") if ladder_value(t, lv, 0) is not None])), -3, 3)
+    cre, cim = value()
+    CT = reg(T([], cre, cim, typed(cre, cim, 1.0)))
+    NCT = g.val(N(cre, cim), L0, H0)
+    terms_, sums_ = [A, B, Cc, PL], [S1, S2]
+
+    def mark(r):
+        # exact-object numbers: sympy leaves a product of two complex sums unexpanded and numpy cannot test it against zero --
+        # products of RESULTS are not asked (products of the operands, their sums and differences, are)
+        if sym and r is not None:
+            g.info[r]["lin"] = True
+        return r
+
+    menu = [
+        lambda: mark(g.mul(A, B)), lambda: mark(g.mul(B, A)), lambda: g.add("add", A, B), lambda: g.add("sub", A, B), lambda: g.add("sub", B, PL),
+        lambda: mark(g.mul(A, PL)), lambda: mark(g.mul(PL, A)), lambda: g.add("add", PL, A), lambda: g.add("add", A, TW), lambda: g.add("sub", A, TW),
+        lambda: g.add("sub", A, SIB), lambda: g.add("add", SIB, A),
+        lambda: g.add("iadd", A, B), lambda: g.add("isub", S1, A), lambda: g.add("iadd", S2, PL), lambda: g.add("isub", A, SB),   # x = a; x += b
+        lambda: mark(g.mul(A, S1)), lambda: mark(g.mul(S1, A)), lambda: mark(g.mul(S1, S2)), lambda: mark(g.mul(S2, S1)), lambda: mark(g.mul(S2, S2)),
+        lambda: g.add("add", S1, A), lambda: g.add("add", A, S1), lambda: g.add("sub", S1, Cc), lambda: g.add("sub", Cc, S1), lambda: g.add("add", S1, S2),
+        lambda: g.add("sub", S2, S1), lambda: g.add("sub", S1, S1), lambda: g.simplify(S1), lambda: g.simplify(S2),
+        lambda: g.mul(A, N2), lambda: g.mul(N2, A), lambda: g.mul(S1, N2), lambda: g.mul(N2, S1), lambda: g.mul(A, NI), lambda: g.mul(NI, S2),
+        lambda: g.add("add", A, N2), lambda: g.add("add", N2, S1), lambda: g.add("sub", N2, A), lambda: g.add("sub", S1, N2),
+        lambda: g.div(A, D), lambda: g.div(S1, D), lambda: g.div(A, DF), lambda: g.div(S2, DF), lambda: g.div(B, N2) if "j" in g.info[N2] else None,
+        lambda: g.add("sub", A, SB), lambda: g.add("sub", S1, SB), lambda: g.add("sub", Cc, SB),
+        lambda: mark(g.pow(A, rng.choice([2, 3]))), lambda: mark(g.pow(B, 2)), lambda: g.pow(A, 0), lambda: g.pow(S1, 0), lambda: g.pow(S2, 1),
+        lambda: mark(g.pow(S2, 2)), lambda: mark(g.pow(S1, 2)),
+    ]
+    if sym:
+        menu += [lambda: g.add("add", NL, A), lambda: g.add("sub", NL, A), lambda: g.add("add", NL, Cc), lambda: g.add("sub", NL, B)] * 2
+    want = rng.randrange(8, 14 if tier == "thorough" else 12)
+    results = []
+    for f in rng.sample(menu, len(menu)):
+        if len(g.steps) >= want:
+            break
+        r = f()
+        if r is not None:
+            results.append(r)
+    # second generation: the results (of whatever type the library gave them) go on as operands
+    for _ in range(rng.randrange(2, 5)):
+        if not results:
+            break
+        x = rng.choice(results)
+        y = rng.choice(results + terms_ + sums_)
+        h = rng.random()
+        if h < 0.3:
+            r = g.add(rng.choice(["add", "sub"]), x, y)
+        elif h < 0.55:
+            r = mark(g.mul(x, y) if rng.random() < 0.5 else g.mul(y, x))
+        elif h < 0.7:
+            r = g.mul(x, rng.choice([N2, NI]))
+        elif h < 0.8:
+            r = g.div(x, rng.choice([D, DF]))
+        elif h < 0.9 and g.info[x]["k"] == "sum":
+            r = g.simplify(x)
+        else:
+            r = g.add("sub", x, SB)
+        if r is not None:
+            results.append(r)
+    # == where the unchanged library defines it
+    if eqmode is not None:
+        g.eq(A, TW); g.eq(TW, A); g.eq(A, B); g.eq(A, PL); g.eq(A, A); g.eq(A, SIB); g.eq(SIB, A); g.eq(SIB, TW)
+        g.eq(CT, NCT); g.eq(NCT, CT); g.eq(CT, N2); g.eq(A, NCT)     # a constant term against the plain number of its value
+        if eqmode == "all":
+            x = g.add("add", A, B); y = g.add("add", B, A)
+            g.eq(x, y); g.eq(y, x); g.eq(x, A); g.eq(A, x)
+            sx = g.simplify(S1); g.eq(sx, S2); g.eq(sx, sx)
+            for r in rng.sample(results, min(3, len(results))):
+                g.eq(r, rng.choice(results)); g.eq(r, r)
+            g.eq(S2, B)
+    if not g.steps:
+        g.add("add", A, B)
+    c = g.case("ladder")
+    c["family"] = name
+    if eqmode != "all":
+        c["no_selfeq"] = True     # == between sums is undefined for this family on the unchanged library (ASSUMPTIONS)
+    return c
+
+
 def _inplace_case(rng, tier):
     """augmented assignment `x = a; x += b` (also -= *= /= **=) gives the value of the plain operation and must leave the
     object `a` (still held under its own name) alone; the plain operation on the same objects follows"""
@@ -1486,6 +1710,12 @@ def generate(rng, tier):
         cases.append(_inplace_case(rng, tier))
     for _ in range(100 if big else 24):
         cases.append(_routes_case(rng, tier))
+    # the type ladder: every family on every run, then seeded extra ones
+    for fam in LADDER_FAMILIES:
+        for _ in range(4 if big else 2):
+            cases.append(_ladder_case(rng, tier, fam))
+    for _ in range(60 if big else 12):
+        cases.append(_ladder_case(rng, tier))
     return cases
 
 
@@ -1516,6 +1746,13 @@ def nontrivial(case):
 # ---------------------------------------------------------------------------------------------- implementation
 def _num(c, ty=None):
     re, im = unrat(c[0]), unrat(c[1])
+    if ty in LADDER_ALL:
+        # a rung of the type ladder (harness/ladder.py): numpy complex64 / clongdouble / float32 / float16 / longdouble / int8..int64 /
+        # uint8 / bool_, Python bool, Fraction, sympy number -- only where the type carries the value exactly
+        v = ladder_value(ty, re, im)
+        if v is not None:
+            return v
+        ty = None
     if ty == "int":
         return int(re)
     if ty == "bool":
@@ -1561,6 +1798,9 @@ def _canon(o):
         return {"k": "sum", "terms": [_canon(t) for t in o.terms]}
     if isinstance(o, (int, float, complex)):
         return {"k": "num", "c": _cnum(o)}
+    from ..ladder import tclass
+    if tclass(o) in ("fraction", "sympy") or tclass(o).startswith("np:"):
+        return {"k": "num", "c": _cnum(o)}        # a number of the type ladder handed in as a scalar operand
     return {"k": "other", "type": type(o).__name__}
 
 
@@ -1679,7 +1919,7 @@ def run_impl(case):
         regs.append(r)
         fps.append(_fp(r))
         results.append("poke" if op == "poke" else _canon(r))
-        if isinstance(r, PauliSum):
+        if isinstance(r, PauliSum) and not c.get("no_selfeq"):
             # every sum the library hands out is at once compared, both ways round, with the same operator written with one
             # term per string (an operator returned by the arithmetic / by simplify() is a simplified operator)
             ref = _one_term_per_string(r)
@@ -1847,6 +2087,16 @@ def _coeff_table(v):
         items = [(tuple(map(tuple, t["ops"])), t["c"]) for t in v["terms"]]
     for key, c in items:
         re, im = _cfr(c)
+        out[key] = out.get(key, 0) + complex(float(re), float(im))
+    return out
+
+
+def _spec_table(v):
+    """operator string -> coefficient of a value as the CALLER wrote it (written-out identities act on nothing)"""
+    out = {}
+    for t in ([v] if v["k"] == "term" else v["terms"]):
+        key = tuple(sorted((int(q), p_) for q, p_ in t["ops"] if p_ != "I"))
+        re, im = _cfr(t["c"])
         out[key] = out.get(key, 0) + complex(float(re), float(im))
     return out
 
@@ -2030,6 +2280,17 @@ def oracle(case, out):
     if not isinstance(out, dict) or "results" not in out:
         return ("raise:" + str(out.get("exc") if isinstance(out, dict) else out), f"implementation raised unexpectedly: {out}")
     regs = list(out["init"])
+    # a term built from (operator string, coefficient) denotes coefficient * string, a sum built from terms their sum -- whatever
+    # the TYPE of the number the caller handed over: the freshly built operands are read back and compared with what was passed in
+    for i, (spec, got) in enumerate(zip(c["vals"], regs)):
+        if spec["k"] == "num" or not isinstance(got, dict) or got.get("k") != spec["k"]:
+            continue
+        want, have = _spec_table(spec), _coeff_table(got)
+        for key in set(want) | set(have):
+            if abs(want.get(key, 0) - have.get(key, 0)) > 1e-12 * max(1.0, abs(want.get(key, 0))):
+                return ("operand-misread:" + spec["k"],
+                        f"the {spec['k']} built from {common.canon(spec)[:200]} holds {have.get(key, 0)} on the string {key}, not the "
+                        f"coefficient {want.get(key, 0)} it was given (reads back as {common.canon(got)[:200]})")
     qubits = set()
     vals_seen = regs + [r for r in out["results"] if isinstance(r, dict)] + [ch[2] for ch in out.get("changed", [])]
     for v in vals_seen:
@@ -2214,7 +2475,16 @@ def distribution(cases, outs):
             for t in ([v] if v["k"] in ("term", "num") else v.get("terms", []))]
     mags = [m for m in mags if m > 0]
     objects_changed = sum(len(o.get("changed", [])) for o in outs if isinstance(o, dict))
+    fams, tys = {}, {}
+    for case in cases:
+        if case.get("kind") == "ladder":
+            fams[case.get("family", "?")] = fams.get(case.get("family", "?"), 0) + 1
+        for v in expand(case)["vals"]:
+            for t in ([v] if v["k"] in ("term", "num") else v.get("terms", [])):
+                key = ("scalar:" if v["k"] == "num" else "coefficient:") + str(t.get("ty") or "float/complex")
+                tys[key] = tys.get(key, 0) + 1
     return {"step_ops": ops, "errors_hit": errs, "initial_value_kinds": kinds, "max_qubit_index_plus_1": width,
             "log2_coefficient_magnitude_range": [round(math.log2(min(mags)), 1), round(math.log2(max(mags)), 1)] if mags else None,
             "objects_changed_under_a_step(pokes)": objects_changed,
-            "max_initial_sum_terms": nterms, "inexact_cases": sum(1 for c in cases if c.get("exact") is False)}
+            "max_initial_sum_terms": nterms, "inexact_cases": sum(1 for c in cases if c.get("exact") is False),
+            "type_ladder_families": dict(sorted(fams.items())), "number_types": dict(sorted(tys.items()))}
